@@ -9,6 +9,7 @@ builtin (pyvc.builtins / trusted models) or the function is `unsupported`.
 """
 from __future__ import annotations
 
+import os
 import ast
 from dataclasses import dataclass, field
 
@@ -149,6 +150,9 @@ def meta_value(m):
 
 
 # --------------------------------------------------------------------------- engine
+AUTO_FIELDS: set = set()      # 'Class.field' keys declared on the fly (unknown to the contracts)
+
+
 class Engine:
     MAX_INLINE = 8
 
@@ -169,6 +173,7 @@ class Engine:
         self.old_env = None
         self.site_counters: dict[str, int] = {}
         self.assumptions: set[str] = set()
+        self.local_fact_ids: set[int] = set()
         self.inlined: set[str] = set()
         self.used_contracts: set[str] = set()
         self.trusted_used: set[str] = set()
@@ -219,7 +224,10 @@ class Engine:
         return f(*bv)
 
     def fact(self, st: State | None, f):
-        self.facts.append(self.close(f, st.path if st is not None else None))
+        g = self.close(f, st.path if st is not None else None)
+        if st is not None and not z3.is_true(st.path):
+            self.local_fact_ids.add(g.get_id())      # holds under a path condition only
+        self.facts.append(g)
 
     def oblige(self, st: State, goal, name, kind='ensures', props=(), text=''):
         if st.dead:
@@ -285,6 +293,13 @@ class Engine:
         for c in self.class_mro(cls):
             if (c, fname) in FIELDS:
                 return f'{c}.{fname}', FIELDS[(c, fname)]
+        if cls in self.repo.classes and not fname.startswith('__'):
+            # a field the contracts do not declare (e.g. introduced by a change to the code): treated as a
+            # dynamically typed attribute of that class, so that the rest of the function is still checked
+            FIELDS[(cls, fname)] = KDyn
+            AUTO_FIELDS.add(f'{cls}.{fname}')
+            self.assumptions.add(f'field {cls}.{fname} is not declared in contracts/classes.py: treated as dynamically typed')
+            return f'{cls}.{fname}', KDyn
         raise Unsupported(f'undeclared field {cls}.{fname}')
 
     def class_mro(self, cls):
@@ -320,6 +335,57 @@ class Engine:
                 self.old_heap[key] = arr
             self.heap_closed(None, key, arr, kind, z3.Int('alloc0'))
         return st.heap[key]
+
+    def frame_spec(self):
+        """(allowed objects per heap key, field names any object may change) of the function's modifies clause."""
+        if getattr(self, '_frame_spec', None) is not None:
+            return self._frame_spec
+        c = self.contract
+        allowed, anyobj = {}, set()
+        for m in list(c.modifies) + [t for t, _ in c.ghost_sets]:
+            if m.startswith('*.'):
+                anyobj.add(m[2:])
+                continue
+            if m == '*' or m.startswith('global:') or m == 'fresh' or m.startswith('ghost:'):
+                continue
+            node = ast.parse(m, mode='eval').body
+            if not isinstance(node, ast.Attribute):
+                raise SpecError(f'modifies clause must be obj.field: {m}')
+            obj = self.eval_spec(node.value, self.init_state, self.init_state)
+            key, _ = self.field_decl(obj.kind.cls if isinstance(obj.kind, KRef) else None, node.attr)
+            allowed.setdefault(key, []).append(obj.term)
+        self._frame_spec = (allowed, anyobj)
+        return self._frame_spec
+
+    def loop_frame_formula(self, key, arr):
+        """forall r existing at function entry and not allowed by the modifies clause: arr[r] == entry[r]"""
+        c = self.contract
+        if c.modifies == ['*'] or key in AUTO_FIELDS or self.old_heap is None:
+            return None
+        allowed, anyobj = self.frame_spec()
+        fname = key.split('.', 1)[1]
+        if key in anyobj or fname in anyobj:
+            return None
+        init = self.old_heap.get(key)
+        if init is None:
+            return None
+        r = z3.Int(fresh_name('r'))
+        excl = [r != o for o in allowed.get(key, [])]
+        return Vm.forall([r], z3.Implies(z3.And(r > 0, r < z3.Int('alloc0'), *excl), z3.Select(arr, r) == z3.Select(init, r)),
+                         patterns=[z3.Select(arr, r)])
+
+    def materialize_key(self, st, key):
+        if key.startswith('$ghost:'):
+            kind = self.ghost_kind(key[len('$ghost:'):])
+        elif key.startswith('$global:'):
+            mod, name = key[len('$global:'):].rsplit('.', 1)
+            kind = GLOBALS.get((mod, name))
+        elif key == '$cls':
+            kind = KInt
+        else:
+            kind = self.kind_of_key(key)
+        if kind is not None:
+            self.heap_array(st, key, kind)
 
     def kind_of_key(self, key):
         if '.' in key and not key.startswith('$'):
@@ -591,6 +657,7 @@ class Engine:
                                 text=f'on raising {exc}: {cl.text}', props=cl.props)
         # ---- normal post-conditions
         if not res_state.dead:
+            self.apply_ghost_sets(c, res_state, self.init_state, res_val)
             for cl in c.ensures:
                 if cl.bounded:
                     continue      # decided by the bounded run-time check only (never counted as proved)
@@ -670,8 +737,15 @@ class Engine:
             obj = self.eval_spec(node.value, self.init_state, self.init_state)
             key, _ = self.field_decl(obj.kind.cls if isinstance(obj.kind, KRef) else None, node.attr)
             allowed.setdefault(key, []).append(obj.term)
+        for target, _ in c.ghost_sets:
+            node = ast.parse(target, mode='eval').body
+            obj = self.eval_spec(node.value, self.init_state, self.init_state)
+            key, _k = self.field_decl(obj.kind.cls if isinstance(obj.kind, KRef) else None, node.attr)
+            allowed.setdefault(key, []).append(obj.term)
         a0 = z3.Int('alloc0')
         for key, arr in st.heap.items():
+            if key in AUTO_FIELDS:
+                continue      # attribute unknown to the contracts: outside every frame condition
             if key == '$cls':
                 continue
             if key.startswith('$ghost:'):
@@ -842,6 +916,13 @@ class Engine:
         cur = self.eval(self._load(s.target), st)
         rhs = self.eval(s.value, st)
         if st.dead:
+            return
+        if self.T.is_tensor(cur) or (isinstance(cur.kind, KRef) and cur.kind.cls is None):
+            # `t op= x` on a tensor writes t's storage in place (same object, same dtype, same shape)
+            if not self.T.is_tensor(cur):
+                self.require(st, self.isinstance_term(st, cur, 'Tensor'), 'TypeError', 'tensor operand expected')
+                cur = V(KRef('Tensor'), cur.term)
+            self.T.tensor_inplace(self, st, type(s.op).__name__, cur, rhs)
             return
         v = self.binop(type(s.op).__name__, cur, rhs, st)
         self.assign(s.target, v, st)
@@ -1176,8 +1257,11 @@ class Engine:
                     ncls[nm] = v.kind.cls
         except Unsupported:
             pass
-        heap_keys = self.modified_heap_keys(s.body, name_classes=ncls)
+        lk = {nm: v.kind for nm, v in st.env.items() if v is not None}
+        heap_keys = self.modified_heap_keys(s.body, name_classes=ncls, local_kinds=lk)
+        alloc_only = set(getattr(self, '_alloc_only', set())) if heap_keys is not None else set()
         entry = st.copy()
+        frame_keys = []      # keys whose function-level frame is carried as an implicit loop invariant
 
         def havoc(state):
             havocked = []
@@ -1188,20 +1272,29 @@ class Engine:
                     self.assume_wellformed(state, v)
                 elif name in state.env:
                     del state.env[name]
-            for key in list(state.heap) if heap_keys is None else heap_keys:
+            for key in list(state.heap) if heap_keys is None else sorted(heap_keys):
+                if key not in state.heap:
+                    # first touched inside the loop: materialise the entry array so that the loop's effect
+                    # on it is havocked too (otherwise the state after the loop would read the entry array)
+                    self.materialize_key(state, key)
                 if key in state.heap:
                     srt = state.heap[key].sort()
                     oldarr = state.heap[key]
                     state.heap[key] = z3.Const(fresh_name('H:' + key), srt)
                     havocked.append(key)
-                    if key == '$cls':
-                        # the class of an existing object never changes: only new addresses differ
+                    if key == '$cls' or (key in alloc_only and not key.startswith('$')):
+                        # the class of an existing object never changes / the loop writes this field only on
+                        # objects it allocates itself: cells of objects existing at loop entry are unchanged
                         r = z3.Int(fresh_name('r'))
                         self.fact(state, Vm.forall([r], z3.Implies(z3.And(r > 0, r < entry.nxt),
                                                                    z3.Select(state.heap[key], r) == z3.Select(oldarr, r)),
                                                    patterns=[z3.Select(state.heap[key], r)]))
-                else:
-                    pass
+                    if not key.startswith('$'):
+                        ff = self.loop_frame_formula(key, state.heap[key])
+                        if ff is not None:
+                            self.fact(state, ff)
+                            if key not in frame_keys:
+                                frame_keys.append(key)
             if heap_keys is None or heap_keys:
                 nx = z3.Int(fresh_name('alloc'))
                 self.fact(state, nx >= state.nxt)
@@ -1212,6 +1305,16 @@ class Engine:
                     self.heap_closed(state, key, state.heap[key], kind, state.nxt)
 
         self.fact(st, n >= 0)
+        # 2a. implicit invariant: the function's own frame condition (modifies clause) for the arrays the
+        # loop havocs -- holds on entry, assumed at the loop head (in havoc), re-proved after the body
+        if heap_keys is not None:
+            for key in sorted(heap_keys):
+                if key.startswith('$') or key not in st.heap:
+                    continue
+                ff = self.loop_frame_formula(key, st.heap[key])
+                if ff is not None and not z3.eq(st.heap[key], self.old_heap.get(key, st.heap[key])):
+                    self.oblige(st, ff, f'loop{lid}:entry:frame:{key}', kind='frame',
+                                text=f'frame condition of the function holds for {key} when the loop is entered')
         # 2b. kinds of loop-carried locals: a variable that is e.g. None before the loop and a tensor after
         # one iteration must be havocked at the *joined* kind.  Dry-run the body once to learn the kinds.
         snap = (len(self.obligations), len(self.facts), len(self.exits), dict(self.site_counters), len(self.covers),
@@ -1233,7 +1336,11 @@ class Engine:
                     kinds[name] = merge(z3.Bool(fresh_name('kc')), v_start, v_end).kind
         finally:
             del self.obligations[snap[0]:]
+            # path-independent facts stated during the dry run (e.g. closedness of an entry array that
+            # was first touched there) stay: the arrays they describe stay registered too
+            keep_ = [f for f in self.facts[snap[1]:] if f.get_id() not in self.local_fact_ids]
             del self.facts[snap[1]:]
+            self.facts.extend(keep_)
             del self.exits[snap[2]:]
             self.site_counters = snap[3]
             del self.covers[snap[4]:]
@@ -1243,6 +1350,7 @@ class Engine:
             st.env[name] = coerce(st.env[name], kd)
         # 3. arbitrary iteration
         body = st.copy()
+        body_facts_from, body_exits_from, body_returns_from = len(self.facts), len(self.exits), len(fr.returns)
         havoc(body)
         k = z3.Int(fresh_name('k' + lid))
         # the arbitrary iteration is a *path* of its own: its assumptions must not leak into the facts
@@ -1270,6 +1378,21 @@ class Engine:
                 r = self.eval_inv(cl.node, body, {idx_name: IntV(k + 1)})
                 self.oblige(body, self.truth(r), f'loop{lid}:preserved:{cl.label}', kind='loop',
                             text=cl.text, props=cl.props)
+            for key in frame_keys:
+                ff = self.loop_frame_formula(key, body.heap[key])
+                if ff is not None:
+                    self.oblige(body, ff, f'loop{lid}:preserved:frame:{key}', kind='frame',
+                                text=f'an iteration modifies {key} only on the objects the modifies clause allows')
+        # 3b. the arbitrary iteration is a dead end for everything that follows (no break / return left it,
+        # and no clause speaks about exceptional exits): the facts that hold only on its paths are dropped
+        # from the hypotheses of later obligations (dropping hypotheses is always sound)
+        top = self.contract
+        if (not breaks and len(fr.returns) == body_returns_from
+                and (len(self.exits) == body_exits_from or not (top.raises or top.exsures))
+                and os.environ.get('PYVC_NO_PRUNE') != '1'):
+            keep = [f for f in self.facts[body_facts_from:] if f.get_id() not in self.local_fact_ids]
+            del self.facts[body_facts_from:]
+            self.facts.extend(keep)
         # 4. after the loop
         havoc(st)
         for cl in spec.invariants:
@@ -1326,7 +1449,7 @@ class Engine:
                         keys.add(f'{c}.{fld}')
         return keys
 
-    def modified_heap_keys(self, stmts, _depth=0, _seen=None, name_classes=None):
+    def modified_heap_keys(self, stmts, _depth=0, _seen=None, name_classes=None, _allocs=None, local_kinds=None):
         """Heap keys possibly written by the statements (None = unknown => havoc all).  Static
         over-approximation: callees are resolved by name over all repository classes; callees under
         contract contribute their modifies clause, others are scanned recursively."""
@@ -1360,14 +1483,14 @@ class Engine:
                 seen.add(fi.key)
                 c = REGISTRY.get(fi.key)
                 if c is not None and c.mode in ('contract', 'bounded') :
-                    ks = eng.keys_of_modifies(c.modifies)
+                    ks = eng.keys_of_modifies(list(c.modifies) + [t for t, _ in c.ghost_sets])
                     if ks is None:
                         unknown[0] = True
                     else:
                         keys.update(ks)
                         allocs[0] = True
                 elif _depth < 6:
-                    ks = eng.modified_heap_keys(body_without_docstring(fi.node), _depth + 1, seen)
+                    ks = eng.modified_heap_keys(body_without_docstring(fi.node), _depth + 1, seen, _allocs=allocs)
                     if ks is None:
                         unknown[0] = True
                     else:
@@ -1389,7 +1512,7 @@ class Engine:
                             callee = ci.setters[n.attr]
                             if callee.key not in seen:
                                 seen.add(callee.key)
-                                ks = eng.modified_heap_keys(body_without_docstring(callee.node), _depth + 1, seen)
+                                ks = eng.modified_heap_keys(body_without_docstring(callee.node), _depth + 1, seen, _allocs=allocs)
                                 if ks is None:
                                     unknown[0] = True
                                 else:
@@ -1401,9 +1524,9 @@ class Engine:
                             seen.add(fi.key)
                             c = REGISTRY.get(fi.key)
                             if c is not None and c.mode == 'contract':
-                                ks = eng.keys_of_modifies(c.modifies)
+                                ks = eng.keys_of_modifies(list(c.modifies) + [t for t, _ in c.ghost_sets])
                             else:
-                                ks = eng.modified_heap_keys(body_without_docstring(fi.node), _depth + 1, seen)
+                                ks = eng.modified_heap_keys(body_without_docstring(fi.node), _depth + 1, seen, _allocs=allocs)
                             if ks is None:
                                 unknown[0] = True
                             else:
@@ -1422,6 +1545,10 @@ class Engine:
                     return
                 if name in eng.LIB_MUTATORS:
                     keys.update(eng.LIB_MUTATORS[name])
+                    allocs[0] = True
+                    return
+                if name.endswith('_') and not name.endswith('__') and ('Tensor', name) in eng.T.METHODS:
+                    keys.add('Tensor.val')        # in-place tensor method
                     allocs[0] = True
                     return
                 # container methods on fields / globals
@@ -1450,7 +1577,7 @@ class Engine:
                     init = eng.repo.find_method(name, '__init__')
                     if init is not None and init.key not in seen:
                         seen.add(init.key)
-                        ks = eng.modified_heap_keys(body_without_docstring(init.node), _depth + 1, seen)
+                        ks = eng.modified_heap_keys(body_without_docstring(init.node), _depth + 1, seen, _allocs=allocs)
                         if ks is None:
                             unknown[0] = True
                         else:
@@ -1476,12 +1603,39 @@ class Engine:
                 allocs[0] = True      # tensor arithmetic allocates
                 s.generic_visit(n)
 
+            def visit_AugAssign(s, n):
+                # `t op= x` writes t's storage in place when t is a tensor
+                allocs[0] = True
+                t = n.target
+                scalar = False
+                if isinstance(t, ast.Attribute):
+                    ks_ = [k_ for (c_, f_), k_ in FIELDS.items() if f_ == t.attr]
+                    scalar = bool(ks_) and all(k_ in (KInt, KReal, KBool, KStr) for k_ in ks_)
+                elif isinstance(t, ast.Name) and _depth == 0 and local_kinds is not None:
+                    scalar = local_kinds.get(t.id) in (KInt, KReal, KBool, KStr)
+                elif isinstance(t, ast.Subscript):
+                    base = t.value
+                    if isinstance(base, ast.Name) and _depth == 0 and local_kinds is not None:
+                        bk = local_kinds.get(base.id)
+                        scalar = isinstance(bk, (KDict, KList)) and getattr(bk, 'val', getattr(bk, 'elem', None)) in (KInt, KReal, KBool, KStr)
+                    elif isinstance(base, ast.Attribute):
+                        ks_ = [k_ for (c_, f_), k_ in FIELDS.items() if f_ == base.attr]
+                        scalar = bool(ks_) and all(isinstance(k_, (KDict, KList)) and getattr(k_, 'val', getattr(k_, 'elem', None)) in (KInt, KReal, KBool, KStr) for k_ in ks_)
+                if not scalar:
+                    keys.add('Tensor.val')
+                s.generic_visit(n)
+
         for st_ in stmts:
             Vis().visit(st_)
+        if _allocs is not None:
+            _allocs[0] = _allocs[0] or allocs[0]
         if unknown[0]:
             return None
-        if allocs[0]:
-            keys.update(self.ALLOC_KEYS)
+        if _depth == 0:
+            # keys written only as fields of objects allocated by the statements themselves
+            self._alloc_only = (set(self.ALLOC_KEYS) - keys) if allocs[0] else set()
+            if allocs[0]:
+                keys.update(self.ALLOC_KEYS)
         return keys
 
     def concrete_int(self, t):
@@ -2592,6 +2746,7 @@ class Engine:
             self.havoc_modifies(c, st, pre)
             res = fresh(c.result, 'res') if c.result is not None else NONE
             self.assume_wellformed(st, res)
+            self.apply_ghost_sets(c, st, pre, res)
             for cl in c.ensures:
                 if cl.bounded:
                     continue      # unproved clauses are never assumed at call sites
@@ -2608,6 +2763,17 @@ class Engine:
         finally:
             self.frames.pop()
             self._callee_env, self.let_nodes = saved
+
+    def apply_ghost_sets(self, c: Contract, st: State, pre: State, res):
+        """Ghost updates of a contract (specification-only fields): obj evaluated in the pre-state, value in
+        the post-state; performed at the normal exit of the function / at the call site after the havoc."""
+        for target, text in c.ghost_sets:
+            node = ast.parse(target, mode='eval').body
+            obj = self.eval_spec(node.value, pre, pre)
+            val = self.eval_spec(ast.parse(text, mode='eval').body, st, pre, result=res)
+            key, kind = self.field_decl(obj.kind.cls if isinstance(obj.kind, KRef) else None, node.attr)
+            arr = self.heap_array(st, key, kind)
+            st.heap[key] = z3.Store(arr, obj.term, coerce(val, kind).term)
 
     GHOST_KINDS = {'next_sid': KInt, 'calls': KInt, 'clock': KInt, 'barriers': KInt}
 
